@@ -1048,3 +1048,324 @@ class GradShapeOracle(Observer):
                             if w.violation("C14", "C14.bad_seed_wrote_grad", f"step {w.nstep}: a rejected seed still wrote a gradient to handle {h}", tag="C14.bad_seed_wrote_grad"):
                                 return
                     w.probe("c14.bad_seed_rejected")
+
+
+# ======================================================================================
+# C07 - backward releases the whole graph; gradients never go stale
+# ======================================================================================
+class ReleaseOracle(Observer):
+    """weakref ground truth: after L.backward() everything that was in L's graph and that the
+    caller does not itself reference is dead, with the cyclic collector off."""
+
+    def attach(self, w):
+        self.pending = None
+
+    def before(self, w, ev):
+        self.pending = None
+        if ev["k"] != "backward" or ev["tgt"] not in w.T or not w.tracking:
+            return
+        t0 = w.T[ev["tgt"]]
+        refs = []
+        seen = set()
+        stack = [t0]
+        while stack:
+            x = stack.pop()
+            if id(x) in seen:
+                continue
+            seen.add(id(x))
+            refs.append(("tensor", weakref.ref(x)))
+            refs.append(("array", weakref.ref(x.data)))
+            c = x.creator
+            if c is not None and id(c) not in seen:
+                seen.add(id(c))
+                refs.append(("op:" + type(c).__name__, weakref.ref(c)))
+                stack.extend(c.variables)
+            b = x.base
+            if b is not None:
+                stack.append(b)
+        held_up = [h for h, t in w.T.items() if id(t) in seen]
+        self.pending = (refs, held_up)
+        del stack, t0, seen
+
+    def _retained(self, w):
+        """ids of everything the caller legitimately keeps alive: reachable from a caller-held
+        tensor/array through .data/.base/.grad, and - for tensors whose own graph has not been
+        cleared - through anything their creator references, transitively (DESIGN 3/C07)."""
+        import types
+
+        keep = set()
+        stack = list(w.T.values()) + [r() for r in w.parked if r() is not None] + list(w.A.values())
+        skip = (type, types.ModuleType, types.CodeType, types.BuiltinFunctionType, str, bytes, int, float, bool, type(None), np.dtype, np.generic, np.ufunc)
+        while stack:
+            x = stack.pop()
+            if x is None or id(x) in keep:
+                continue
+            keep.add(id(x))
+            if isinstance(x, np.ndarray):
+                if isinstance(x.base, np.ndarray):
+                    stack.append(x.base)
+                continue
+            if not isinstance(x, Tensor):
+                continue
+            stack.append(x.data)
+            stack.append(getattr(x, "_grad", None))
+            stack.append(getattr(x, "_view_grad", None))
+            stack.append(x.base)
+            c = x.creator
+            if c is None:
+                continue
+            sub = [c]
+            n = 0
+            while sub and n < 50000:
+                y = sub.pop()
+                n += 1
+                if id(y) in keep or isinstance(y, skip):
+                    continue
+                if isinstance(y, dict) and "__builtins__" in y:
+                    continue
+                if isinstance(y, (Tensor, np.ndarray)):
+                    stack.append(y)
+                    continue
+                if isinstance(y, weakref.ReferenceType):
+                    continue
+                keep.add(id(y))
+                try:
+                    sub.extend(gc.get_referents(y))
+                except Exception:
+                    pass
+        return keep
+
+    def after(self, w, ev, out):
+        if self.pending is None or ev["k"] != "backward":
+            return
+        refs, held_up = self.pending
+        self.pending = None
+        if out.status != "ok":
+            return
+        rec = w.last_backward
+        if rec is None or rec.get("tainted") or w.aborted_backward:
+            w.count("c07.release_unjudged")
+            return
+        # (a) upstream caller-held tensors: no creator, no recorded consumers
+        for h in held_up:
+            if h not in w.T:
+                continue
+            t = w.T[h]
+            if t.creator is not None:
+                if w.violation("C07", "C07.creator_left", f"step {w.nstep}: handle {h} is upstream of the terminal but still has a creator after backward()", tag="C07.creator_left"):
+                    return
+            ops = getattr(t, "_ops", None)
+            if ops is not None and len(ops) != 0:
+                if any(r() is not None for r in ops):
+                    if w.violation("C07", "C07.consumers_left", f"step {w.nstep}: handle {h} is upstream of the terminal but still records consumers after backward()", tag="C07.consumers_left"):
+                        return
+        # (b) everything else in the graph is dead without a GC pass
+        alive = [(kind, r()) for kind, r in refs if r() is not None]
+        if not alive:
+            w.probe("c07.graph_fully_released")
+            return
+        keep = self._retained(w)
+        surv = [(kind, o) for kind, o in alive if id(o) not in keep]
+        del alive
+        if not surv:
+            w.probe("c07.graph_released_except_retained")
+            return
+        kinds = sorted({k for k, _ in surv})
+        wr = [weakref.ref(o) for _, o in surv]
+        # is a referrer inside the harness?  (then it is our bug, not MyGrad's)
+        for _, o in surv[:3]:
+            for rf in gc.get_referrers(o):
+                mod = getattr(rf, "__module__", None) or ""
+                if isinstance(rf, dict) and rf.get("__name__", "").startswith("mgsim"):
+                    raise __import__("mgsim.world", fromlist=["HarnessError"]).HarnessError("a survivor is referenced from mgsim module globals")
+        del surv
+        n = gc.collect()
+        still = sum(1 for r in wr if r() is not None)
+        cls = "leak" if still else "cyclic_garbage"
+        w.violation(
+            "C07",
+            "C07.not_freed_by_refcount",
+            f"step {w.nstep}: after backward() {len(wr)} object(s) of the cleared graph ({', '.join(kinds)}) that the caller does not reference are still alive with the cyclic collector off ({cls}: {still} survive a gc.collect())",
+            tag=f"C07.not_freed_by_refcount/{cls}/{'+'.join(k.split(':')[0] for k in kinds)}",
+        )
+
+
+class GradLifetimeOracle(Observer):
+    """per handle: None | value | don't-care (DESIGN 3/C07)."""
+
+    def attach(self, w):
+        self.exp = {}  # handle -> ("none",) | ("val", bytes, shape) | ("dc",)
+        self.iters = {}
+
+    @staticmethod
+    def _state(w, h):
+        g = w.read_grad(w.T[h], h)
+        if g is None:
+            return ("none",)
+        ga = np.asarray(g)
+        return ("val", ga.tobytes(), ga.shape)
+
+    def _phys_sharing(self, w, hs):
+        out = set(hs)
+        for h in hs:
+            if h not in w.T:
+                continue
+            d = w.T[h].data
+            for k, t in w.T.items():
+                if k not in out and t.data.size and d.size and np.shares_memory(t.data, d):
+                    out.add(k)
+        return out
+
+    def after(self, w, ev, out):
+        k = ev["k"]
+        # new handles start without a gradient
+        for h in w.T:
+            if h not in self.exp:
+                # a new view of a tensor that holds a gradient shows the corresponding view of it
+                self.exp[h] = self._state(w, h) if (w.info[h].ids is not None or w.info[h].foreign) else ("none",)
+        for h in [h for h in self.exp if h not in w.T]:
+            del self.exp[h]
+        if w.aborted_backward or w.grad_poisoned:
+            for h in self.exp:
+                self.exp[h] = ("dc",)
+            return
+        touched_none = set()
+        dc = set()
+        if out.status == "ok" and w.tracking:
+            if k in ("op", "nnet") and ev["out"] in w.info:
+                is_view = w.info[ev["out"]].ids is not None
+                if not is_view:
+                    touched_none |= {r["t"] for r in ev.get("args", []) if "t" in r}
+            elif k == "terminal":
+                touched_none |= {h for h, _ in ev["terms"] if h in w.T}
+            elif k == "inplace":
+                touched_none |= {r["t"] for r in ev.get("args", []) if "t" in r}
+                if ev["tgt"] in w.info:
+                    fam = set(w.info[ev["tgt"]].fam.members)
+                    touched_none |= fam
+            elif k == "setshape":
+                touched_none.add(ev["tgt"])
+            elif k == "backward":
+                rec = w.last_backward
+                e = (rec or {}).get("expected")
+                if e is None or rec.get("tainted"):
+                    dc |= set(w.T)
+                else:
+                    for h, x in e.items():
+                        if h not in w.T:
+                            continue
+                        if x[0] == "keep":
+                            continue
+                        self.exp[h] = self._state(w, h)  # judged against the tape by GradOracle
+                    # a stale view whose old base got a new gradient reads None (see GradOracle)
+                    for h in w.T:
+                        if w.info[h].stale and w.T[h].base is not None and e.get(h, ("keep",))[0] == "keep":
+                            dc.add(h)
+                    for h in w.T:
+                        if h not in e:
+                            dc.add(h)
+        elif out.status in ("fail", "unexp") and k == "inplace":
+            dc.add(ev["tgt"])  # the target's gradient is cleared up-front (DESIGN C07 don't-care)
+            if ev["tgt"] in w.info:
+                dc |= set(w.info[ev["tgt"]].fam.members)
+        elif out.status in ("fail", "unexp") and k == "backward":
+            dc |= set(w.T)
+        elif out.status in ("fail", "unexp") and k == "setshape":
+            dc.add(ev["tgt"])
+        if k == "null_grad" and out.status == "ok":
+            touched_none.add(ev["tgt"])
+        if k == "clear" and out.status == "ok":
+            # clear_graph pulls view gradients and leaves gradients in place
+            pass
+        # tensors that merely share memory with a used tensor: views are handled below (they mirror
+        # their base); anything else is unrelated to MyGrad's bookkeeping -> re-anchored
+        direct = set(touched_none)
+        for h in direct:
+            if h in w.T:
+                self.exp[h] = ("none",)
+        if direct and k != "null_grad":
+            for h in self._phys_sharing(w, direct) - direct:
+                if h in self.exp:
+                    dc.add(h)
+        for h in dc:
+            if h in self.exp:
+                self.exp[h] = ("dc",)
+        # compare
+        what = k + ":" + str(ev.get("form") or ev.get("op") or "")
+        owner_of = {}
+        for h in w.T:
+            i = w.info[h]
+            if i.ids is not None:
+                for hh, ids in i.fam.members.items():
+                    if ids is None:
+                        owner_of[h] = hh
+        for h, e in self.exp.items():
+            if e[0] == "dc" or h not in w.T:
+                if e[0] == "dc" and h in w.T:
+                    self.exp[h] = self._state(w, h)  # re-anchor
+                continue
+            if w.info[h].ids is not None:
+                # a view mirrors its base (C06): the only lifetime rule is "base gone => view gone"
+                cur = self._state(w, h)
+                o = owner_of.get(h)
+                if o is not None and self.exp.get(o, ("dc",))[0] == "none" and cur[0] != "none" and not w.info[h].chain_const and not w.info[o].const:
+                    if w.violation("C07", "C07.view_grad_stale", f"step {w.nstep} ({what}): view handle {h} still reads a gradient although its base's gradient is gone", tag=f"C07.view_grad_stale/{what}"):
+                        return
+                self.exp[h] = cur
+                continue
+            cur = self._state(w, h)
+            if cur != e:
+                kind = "lost" if cur[0] == "none" else ("appeared" if e[0] == "none" else "changed")
+                role = "view" if w.info[h].ids is not None else ("stale_view" if (w.info[h].stale and w.T[h].base is not None) else "owner")
+                if role == "stale_view" and kind == "lost":
+                    self.exp[h] = cur
+                    continue
+                if w.violation(
+                    "C07",
+                    f"C07.grad_{kind}",
+                    f"step {w.nstep} ({what}): the gradient of handle {h} ({role}) {kind} although nothing that should affect it happened" if kind != "appeared" else f"step {w.nstep} ({what}): handle {h} ({role}) reads a gradient although it should read None (stale value)",
+                    tag=f"C07.grad_{kind}/{what}/{role}",
+                ):
+                    return
+                self.exp[h] = cur
+        w.probe("c07.lifetime_checked")
+
+    # repeated iterations -----------------------------------------------------------------
+    def scope_event(self, w, what, name):
+        pass
+
+
+class RepeatOracle(Observer):
+    """verbatim repeated iterations that do not mutate leaves give bit-identical gradients (for
+    the leaves the terminal depends on; the model must agree that the two steps are the same)"""
+
+    def attach(self, w):
+        self.seen = {}
+
+    def after(self, w, ev, out):
+        if ev["k"] != "iter_end":
+            return
+        rec = w.last_backward
+        cur = {}
+        if rec is not None and rec.get("status") == "ok" and rec.get("expected") is not None and not rec.get("tainted"):
+            reach = set(rec.get("reach_handles") or [])
+            for h in ev["leaves"]:
+                if h in w.T and h in reach:
+                    g = w.read_grad(w.T[h], h)
+                    e = rec["expected"].get(h)
+                    cur[h] = (None if g is None else (np.asarray(g).tobytes(), np.asarray(g).shape), None if e is None or e[0] != "val" else np.asarray(e[1]).tobytes())
+        self.seen[ev["id"]] = cur
+        j = ev.get("rep_of")
+        if j is None or j not in self.seen or w.aborted_backward:
+            return
+        ref = self.seen[j]
+        n = 0
+        for h, v in cur.items():
+            if h not in ref or ref[h][1] is None or ref[h][1] != v[1]:
+                continue  # not the same step according to the model
+            n += 1
+            if ref[h][0] != v[0]:
+                if w.violation("C07", "C07.repeat_differs", f"step {w.nstep}: leaf handle {h}: repeating the same forward/backward step gave a different gradient (iteration {ev['id']} vs {j})", tag="C07.repeat_differs"):
+                    return
+        if n:
+            w.probe("c07.repeat_identical")
